@@ -125,3 +125,49 @@ func SetTID(req packet.Request, tid uint16) {
 		}
 	}
 }
+
+// B16 is the 16-bit boundary alphabet of DESIGN §2.1.
+var B16 = []uint16{0, 1, 2, 3, 4, 7, 8, 9, 123, 124, 125, 126, 127, 128, 255, 256, 257, 1999, 2000, 2001, 32767, 32768,
+	65407, 65408, 65409, 65410, 65411, 65531, 65532, 65533, 65534, 65535}
+
+// B8 is the 8-bit boundary alphabet.
+var B8 = []uint8{0, 1, 2, 3, 7, 8, 15, 16, 17, 127, 128, 129, 246, 247, 250, 251, 254, 255}
+
+// Pattern produces a payload of n bytes. Kinds: "pos" (every position a different value), "zeros", "ones", "alt",
+// "onehot" (only bit k set), "onecold" (only bit k clear).
+func Pattern(kind string, n int, k int) []byte {
+	b := make([]byte, n)
+	switch kind {
+	case "pos":
+		for i := range b {
+			b[i] = byte(i*13 + 7)
+		}
+	case "zeros":
+	case "ones":
+		for i := range b {
+			b[i] = 0xFF
+		}
+	case "alt":
+		for i := range b {
+			if i%2 == 0 {
+				b[i] = 0x55
+			} else {
+				b[i] = 0xAA
+			}
+		}
+	case "onehot":
+		if k/8 < n {
+			b[k/8] = 1 << uint(k%8)
+		}
+	case "onecold":
+		for i := range b {
+			b[i] = 0xFF
+		}
+		if k/8 < n {
+			b[k/8] &^= 1 << uint(k%8)
+		}
+	default:
+		panic("lib.Pattern: " + kind)
+	}
+	return b
+}
